@@ -114,12 +114,12 @@ def build(want_engines=None, quiet=True):
                 shutil.rmtree(p, ignore_errors=True)
         log = []
         incs = ["-I" + os.path.join(REPO, "src"), "-I" + HARNESS, "-I" + os.path.join(REPO, "src", "lib_common")]
-        if not os.path.exists(os.path.join(REPO, "src", "lib_common", "of_build_config.h")):
-            gen = os.path.join(bdir, "gen")
-            os.makedirs(gen, exist_ok=True)
-            with open(os.path.join(gen, "of_build_config.h"), "w") as fh:
+        cfg_h = os.path.join(REPO, "src", "lib_common", "of_build_config.h")
+        if not os.path.exists(cfg_h):
+            # cmake generates this git-ignored header from of_build_config.h.in; the sources include it by
+            # relative path, so it has to sit there. A tree that was never configured gets cmake's default.
+            with open(cfg_h, "w") as fh:
                 fh.write(DEFAULT_CONFIG)
-            incs.append("-I" + gen)
         variants = sorted(set(ENGINES[e][0] for e in missing))
         srcs = lib_sources()
         jobs = []
@@ -145,16 +145,16 @@ def build(want_engines=None, quiet=True):
         unavailable = []
         for key, ok in status.items():
             if key[0] == "lib" and not ok:
-                sys.stderr.write("BUILD FAILED (library source does not compile):\n" + "\n".join(log)[-6000:] + "\n")
+                sys.stderr.write("BUILD FAILED (library source does not compile):\n" + "\n".join(log)[-2500:] + "\n")
                 return None
             if key[0] == "glue" and not ok:
                 _, v, g, optional, o = key
                 if not optional:
-                    sys.stderr.write("BUILD FAILED (shim):\n" + "\n".join(log)[-6000:] + "\n")
+                    sys.stderr.write("BUILD FAILED (shim):\n" + "\n".join(log)[-2500:] + "\n")
                     return None
                 cc, cxx, cflags, _ = VARIANTS[v]
                 if not run([cc] + cflags + LIBDEFS + incs + ["-DPROBE_STUB", "-c", os.path.join(HARNESS, g), "-o", o], log):
-                    sys.stderr.write("BUILD FAILED (probe stub):\n" + "\n".join(log)[-6000:] + "\n")
+                    sys.stderr.write("BUILD FAILED (probe stub):\n" + "\n".join(log)[-2500:] + "\n")
                     return None
                 unavailable.append(v + ":" + g)
         # probe objects may contain private copies of library translation units: keep only shp_* global
@@ -178,7 +178,7 @@ def build(want_engines=None, quiet=True):
                 if fut.result():
                     os.rename(os.path.join(bdir, e + ".tmp"), os.path.join(bdir, e))
                 else:
-                    sys.stderr.write("BUILD FAILED (engine %s):\n" % e + "\n".join(log)[-8000:] + "\n")
+                    sys.stderr.write("BUILD FAILED (engine %s):\n" % e + "\n".join(log)[-2500:] + "\n")
                     return None
         return bdir
     finally:
